@@ -317,8 +317,8 @@ def step (st : DSt) (ws : List String) : DSt × String :=
     match id.toNat? with
     | some id =>
       match getCtx st id, e with
-      | some c, "ok" => let c' := c.complete none; (putCtx st id c', showState c')
-      | some c, "er" => let c' := c.complete (some .other); (putCtx st id c', showState c')
+      | some c, "ok" => let c' := c.complete Generated.C12.completeKeepsError none; (putCtx st id c', showState c')
+      | some c, "er" => let c' := c.complete Generated.C12.completeKeepsError (some .other); (putCtx st id c', showState c')
       | _, _ => (st, "bad-op")
     | none => (st, "bad-op")
   | ["emit", id] =>
